@@ -44,9 +44,9 @@ SITES = {"empty": ["ctor", "filter", "copy", "transform_copy"],
          "obsdup": ["ctor", "update_ids", "copy", "transform_copy"],
          "sampdup": ["ctor", "update_ids", "copy"],
          "obssize": ["ctor", "ctor_zero", "ctor_rows", "ctor_rowdicts",
-                     "ctor_sparse"],
+                     "ctor_sparse", "ctor_md"],
          "sampsize": ["ctor", "ctor_zero", "ctor_rows", "ctor_rowdicts",
-                      "ctor_sparse"],
+                      "ctor_sparse", "ctor_md"],
          "obsmdsize": ["ctor", "ctor_long", "copy"],
          "sampmdsize": ["ctor", "ctor_long", "copy"]}
 MESSAGES = {"empty": "Empty table!", "obssize": "observation IDs differs",
@@ -112,6 +112,14 @@ def trigger(kind, site):
         o, s_ = (["o1", "o2", "o3"], ["s1", "s2"]) if kind == "obssize" \
             else (["o1", "o2"], ["s1", "s2", "s3"])
         return lambda: Table(data, o, s_)
+    if kind in ("obssize", "sampsize") and site == "ctor_md":
+        # too many IDs, with metadata that fits the *matrix*: still only the
+        # ID count is wrong
+        md = [{"k": 1}, {"k": 2}]
+        if kind == "obssize":
+            return lambda: Table(a, ["o1", "o2", "o3"], ["s1", "s2"], md,
+                                 None)
+        return lambda: Table(a, ["o1", "o2"], ["s1", "s2", "s3"], None, md)
     if kind == "obssize":
         if site == "ctor_zero":     # a matrix without rows, one obs ID
             return lambda: Table(np.zeros((0, 2)), ["o1"], ["s1", "s2"])
@@ -263,6 +271,8 @@ def flat_statements():
         {"s": "seterrcall", "kind": "obsdup", "cb": "cbraise"},
         {"s": "probe", "kind": "sampsize", "site": "ctor",
          "wfilter": "error"},
+        {"s": "cbswap", "kind": "obsdup", "first": "cb1", "second": "cb2",
+         "site": 0},
     ]
 
 
@@ -288,10 +298,16 @@ def statements(depth):
                   st.sampled_from(["cb1", "cb2", "default", "cbraise"])),
         st.builds(lambda k, i, w: {"s": "probe", "kind": k, "site": i,
                                    "wfilter": w},
-                  st.sampled_from(KINDS), st.integers(0, 4),
+                  st.sampled_from(KINDS), st.integers(0, 5),
                   st.sampled_from(["always", "always", "error"])),
         st.builds(lambda k, i: {"s": "probe", "kind": k, "site": i},
-                  st.sampled_from(KINDS), st.integers(0, 4)),
+                  st.sampled_from(KINDS), st.integers(0, 5)),
+        # the callback is replaced between two firings of the same kind
+        st.builds(lambda k, a, b, i: {"s": "cbswap", "kind": k, "first": a,
+                                      "second": b, "site": i},
+                  st.sampled_from(KINDS), st.sampled_from(["cb1", "cb2"]),
+                  st.sampled_from(["cb2", "cb1", "cbraise", "default"]),
+                  st.integers(0, 5)),
         st.just({"s": "probe_valid"}),
     )
     if depth <= 0:
@@ -424,6 +440,16 @@ def run(program, model, rec, path, stats):
             probe(kind, site, model, where, rec,
                   stmt.get("wfilter", "always"))
             stats["probes"] += 1
+        elif s == "cbswap":
+            # macro: the kind reacts by callback `first`, fires, the callback
+            # is replaced (no seterr in between), fires again
+            k_ = stmt["kind"]
+            run([{"s": "seterr", "kw": {k_: "call"}},
+                 {"s": "seterrcall", "kind": k_, "cb": stmt["first"]},
+                 {"s": "probe", "kind": k_, "site": stmt["site"]},
+                 {"s": "seterrcall", "kind": k_, "cb": stmt["second"]},
+                 {"s": "probe", "kind": k_, "site": stmt["site"]}],
+                model, rec, path + "[%d]<" % idx, stats)
         elif s == "probe_valid":
             seen, detail = observe_reaction(valid_input())
             if seen:
